@@ -14,7 +14,7 @@ import PrimaiteModel.Gen.Software
 import PrimaiteModel.Props.C13
 namespace Primaite.C13LoaderProps
 set_option linter.unusedSimpArgs false
-open Primaite Primaite.Lifecycle Primaite.C13Loader
+open Primaite Primaite.Lifecycle Primaite.C13Loader Primaite.Registries
 
 /-! ### Gen: the translated loader block IS the specification -/
 
@@ -40,6 +40,14 @@ theorem C13_gen_loader_sites :
     Gen.SoftwareLoader.headWrites = ["config.fixing_duration"] ∧ Gen.SoftwareLoader.headCalls = ["start"] ∧
     Gen.SoftwareLoader.appWrites = [] ∧ Gen.SoftwareLoader.appCalls = ["run"] ∧
     Gen.SoftwareLoader.durationMentionsOutside = 0 := by decide
+
+/-- every writer of the two lifecycle durations in the whole package, outside the translated block: the two class-level field
+defaults and nothing else — no subclass override, no other configuration path (a new one breaks this obligation and has to be
+brought into the model) -/
+theorem C13_gen_duration_writers :
+    Gen.SoftwareLoader.durationWriters =
+      ["simulator/system/applications/application.py:Application:install_duration",
+       "simulator/system/services/service.py:Service:restart_duration"] := by decide
 
 /-! ### the specification: configured = effective -/
 
@@ -165,6 +173,16 @@ example :
     let s : Svc := { st := .running, sw := { actual := .good } }
     (a0.bind (applyToSvc s)).map (fun s' => (((s'.apply .restart).1.applyAll [.tick, .tick]).st,
       ((s'.apply .restart).1.applyAll [.tick, .tick, .tick]).st)) = some (.restarting, .running) := by decide
+
+/-- node level, by evaluation: a node whose dns-server was configured with restart duration 0 / 1 (install, `setDur` with the
+configured value, restart request): RUNNING again after ONE / TWO whole-node ticks -/
+example :
+    let c : Cls := { cid := "DNSServer", name := "dns-server", port := 53, proto := 1 }
+    let n0 := ({} : Node).run [.installSvc c true [] .good 2, .svcApi 0 (.setDur 0 2), .svcReq "dns-server" .restart]
+    let n1 := ({} : Node).run [.installSvc c true [] .good 2, .svcApi 0 (.setDur 1 2), .svcReq "dns-server" .restart]
+    (n0.findSvc 0).map (·.s.st) = some .restarting ∧ ((n0.run [.tick]).findSvc 0).map (·.s.st) = some .running ∧
+    ((n1.run [.tick]).findSvc 0).map (·.s.st) = some .restarting ∧ ((n1.run [.tick, .tick]).findSvc 0).map (·.s.st) = some .running := by
+  decide
 
 /-- the class defaults the attributes start from are the regenerated ones -/
 theorem C13_gen_loader_class_defaults : Gen.Software.restartDuration = 5 ∧ Gen.Software.installDuration = 2 ∧
